@@ -105,7 +105,7 @@ UnaryMenu(cols, h) ==
         sorts == IF MenuKind = "focus" THEN FocusSorts ELSE GeneralSorts
         calcs == IF MenuKind = "focus" THEN FocusCalcs ELSE GeneralCalcs
         slices == IF MenuKind = "focus" THEN FocusSlices ELSE GeneralSlices
-        projs == IF MenuKind = "focus" THEN {{"a"}, {"b"}, {"a", "b"}} ELSE SUBSET cols
+        projs == IF MenuKind = "focus" THEN {{}, {"a"}, {"b"}, {"a", "b"}} ELSE SUBSET cols
     IN (IF NCalcs(h) < 2 THEN {Calc(FreshTag(h), e) : e \in {x \in calcs : ReqE(x) \subseteq cols}} ELSE {})
          \cup {Proj(cs) : cs \in {x \in projs : x \subseteq cols}}
          \cup {Sel(p) : p \in {x \in preds : ReqP(x) \subseteq cols}}
